@@ -7,6 +7,7 @@
 //!   large <seed> <cases>               sampled n up to 1 MiB around page / word multiples
 //!   guard <seed> <cases>               buffers ending / starting right at PROT_NONE pages
 //!   sample <seed> <cases>              stratified random sample of the same cases (Miri)
+mod place;
 mod sweep;
 use std::hint::black_box;
 use sweep::*;
@@ -74,12 +75,13 @@ mod fault {
     use super::sweep::{current, FN_NAMES, W};
     use std::sync::atomic::{AtomicUsize, Ordering};
 
+    /// glibc's userspace `struct sigaction` on x86_64 (mask before flags; not the kernel layout)
     #[repr(C)]
     struct SigAction {
         handler: usize,
-        flags: u64,
-        restorer: usize,
         mask: [u64; 16],
+        flags: i32,
+        restorer: usize,
     }
     extern "C" {
         fn sigaction(sig: i32, act: *const SigAction, old: *mut SigAction) -> i32;
@@ -94,6 +96,13 @@ mod fault {
         let addr = unsafe { info.add(16).cast::<usize>().read_unaligned() };
         let err = unsafe { uctx.add(40 + 19 * 8).cast::<u64>().read_unaligned() };
         let (c, in_call) = current();
+        if c.pl1 >= 0 {
+            // placement cross product: operand and side are named from the operands in flight
+            let mut w = W::new();
+            let attributable = crate::place::fault_line(addr, err & 2 != 0, sig, "tiny_start::symbols::mem", &mut w);
+            super::raw_out(w.bytes());
+            unsafe { _exit(if attributable { 0 } else { 70 }) }
+        }
         let mut in_guard = false;
         for g in GUARDS.chunks(2) {
             let (lo, hi) = (g[0].load(Ordering::Relaxed), g[1].load(Ordering::Relaxed));
@@ -132,9 +141,9 @@ mod fault {
             for sig in [11, 7] {
                 let act = SigAction {
                     handler: on_fault as *const () as usize,
+                    mask: [0; 16],
                     flags: 4 /* SA_SIGINFO */ | 0x0800_0000, /* SA_ONSTACK */
                     restorer: 0,
-                    mask: [0; 16],
                 };
                 sigaction(sig, &act, std::ptr::null_mut());
             }
@@ -544,6 +553,58 @@ mod guard {
     }
 }
 
+// --------------------------------------------------------------------------------- placement cross product
+#[cfg(not(miri))]
+mod xplace {
+    use super::*;
+    use place::{PCtx, DATA, PAGE};
+    extern "C" {
+        fn mmap(addr: *mut u8, len: usize, prot: i32, flags: i32, fd: i32, off: i64) -> *mut u8;
+        fn mprotect(addr: *mut u8, len: usize, prot: i32) -> i32;
+    }
+    unsafe fn region() -> Option<*mut u8> {
+        let p = mmap(std::ptr::null_mut(), DATA + 2 * PAGE, 3, 0x22, -1, 0);
+        if p as isize == -1 || mprotect(p, PAGE, 0) != 0 || mprotect(p.add(PAGE + DATA), PAGE, 0) != 0 {
+            return None;
+        }
+        Some(p.add(PAGE))
+    }
+    fn quiet(_: u8, _: usize) {}
+
+    pub fn run(seed: u64, sampled: u64, shard: usize, nshards: usize, draws: usize) {
+        let (Some(a), Some(b)) = (unsafe { region() }, unsafe { region() }) else {
+            vh::inconclusive("xplace: mmap/mprotect failed");
+            return;
+        };
+        let mut ctx = PCtx::new(ops(), raw_out, "tiny_start::symbols::mem", a, b, seed ^ 0x9E37_79B9_7F4A_7C15);
+        unsafe {
+            ctx.init();
+            ctx.sweep_exhaustive(shard, nshards.max(1), quiet);
+            ctx.sweep_sampled(sampled as usize, draws, quiet);
+        }
+        let total: u64 = ctx.cases.iter().sum();
+        vh::eval(total);
+        vh::count(&format!("cases_L1-placement_{}", profile()), total);
+        for (i, name) in FN_NAMES.iter().enumerate() {
+            vh::count(&format!("cases_{name}"), ctx.cases[i]);
+            for (k, kn) in KIND_NAMES.iter().enumerate() {
+                if ctx.per_kind[i][k] > 0 {
+                    vh::count(&format!("violating_cases[C08/{name}/{kn}]"), u64::from(ctx.per_kind[i][k]));
+                }
+            }
+        }
+        vh::count("placement_shards_completed", 1);
+        vh::count(&format!("placement_pairs_covered_max1024_{}_shard{shard}", profile()), ctx.pair_count() as u64);
+        for (id, &hit) in ctx.cells.iter().enumerate() {
+            if hit != 0 {
+                let mut w = W::new();
+                place::pcell_name(id, &mut w);
+                vh::distinct(&format!("L1-placement/{}", String::from_utf8_lossy(w.bytes())));
+            }
+        }
+    }
+}
+
 fn main() {
     #[cfg(not(miri))]
     fault::install();
@@ -580,6 +641,9 @@ fn main() {
         "sample" => mode_sample(a.seed, a.budget),
         #[cfg(not(miri))]
         "guard" => guard::run(a.seed, a.budget),
+        // xplace <seed> <sampled large n> <shard> <nshards> [draws per class pair]
+        #[cfg(not(miri))]
+        "xplace" => xplace::run(a.seed, a.budget, arg(0, 0), arg(1, 1), arg(2, 2)),
         m => vh::inconclusive(&format!("unknown mode {m}")),
     }
 }
